@@ -77,6 +77,46 @@ func runC10(c *ctxT) {
 			}
 		}
 	}
+	// directed: the pod's deletion never reaches the pod controller (it was down, or not the leader, when the pod
+	// went away): the record collector is the only path left, and it must release the record
+	if c.Batch == 2%max(c.NBatch, 1) {
+		id := 0
+		for _, trunk := range []bool{true, false} {
+			for _, nifs := range []int{1, 2} {
+				id++
+				hid := 820000 + id
+				fmt.Printf("CASE C10 directed-missed-delete %d trunk=%v nifs=%d\n", hid, trunk, nifs)
+				h := newPeHist(c, "C10", hid, peCfg{Trunk: trunk, Names: 1}, int64(hid))
+				sp := h.mon.spec["p0"]
+				sp.Fixed, sp.Owner, sp.NIfs = "", "ReplicaSet", nifs
+				h.createPod("p0")
+				h.deliverPod("p0")
+				h.deliverENI("p0")
+				h.deliverPod("p0")
+				h.deliverENI("p0")
+				h.mon.mu.Lock()
+				p := h.mon.cur["p0"]
+				h.mon.mu.Unlock()
+				h.remove(p) // nobody tells the pod controller
+				for i := 0; i < 4; i++ {
+					h.gcRecords()
+					for k := 0; k < 3; k++ {
+						h.deliverENI("p0")
+					}
+				}
+				h.mon.mu.Lock()
+				if rec := h.mon.recs["p0"]; rec != nil {
+					h.mon.violate("C10", "C10.record-not-removed", "collector-only/"+peState(rec), fmt.Sprintf("pod p0 (no fixed IP) is gone, its deletion was never delivered to the pod controller, and after 4 collector passes with 12 deliveries to the PodENI controller its record is still there (%s)", peState(rec)))
+				}
+				h.mon.mu.Unlock()
+				peSettle(h, 10, false)
+				peJudgeEnd(h)
+				r.Eval(1)
+				r.Count("directed_missed_delete_cases", 1)
+				h.finish(r)
+			}
+		}
+	}
 	runPeHistories(c, "C10", n, 64, func(rng *rand.Rand) peCfg { return genPeCfg(rng) }, func(h *peHist) {
 		peRandomWalk(h)
 		peSettle(h, 30, false)
